@@ -39,6 +39,17 @@ func c11(x *mon.Ctx) {
 			}
 		}
 	})
+	// a few worlds once more with the library logging at verbosity 2
+	x.AtVerbosity(2, func() {
+		x.Each(x.Pick(12, 200), func(i int) {
+			w := richHonest(x.Rand(fmt.Sprint("world", i)))
+			for _, l := range levels {
+				c := w.Case(l, "verbose/honest", fmt.Sprintf("w%d", i))
+				c.Form, c.Expect, c.ShadowSkip = mon.Forms[(i+l)%4], "accept", true
+				check(x, i, c)
+			}
+		})
+	})
 	for _, f := range mon.Forms {
 		for k, s := range []struct {
 			name string
